@@ -26,6 +26,7 @@ import (
 	"syscall"
 	"testing"
 	"testing/synctest"
+	"time"
 
 	"github.com/dgraph-io/badger/v4/vshim/sched"
 	"github.com/dgraph-io/badger/v4/vshim/vlib"
@@ -179,6 +180,26 @@ type crashOp struct {
 	DropP   []string          // prefixes dropped
 	DropAll bool
 	NoData  bool // maintenance: does not change the visible state
+	TTL     map[string]bool // keys of Writes written with an expiry one (virtual) hour ahead, user meta 0x5a
+}
+
+// applyOpsExpired: the visible state once every TTL has passed (an expired write hides the key).
+func applyOpsExpired(ops []crashOp) map[string]string {
+	var o2 []crashOp
+	for _, o := range ops {
+		if len(o.TTL) > 0 {
+			w := map[string]string{}
+			for k, v := range o.Writes {
+				if o.TTL[k] {
+					v = ""
+				}
+				w[k] = v
+			}
+			o = crashOp{Name: o.Name, Writes: w}
+		}
+		o2 = append(o2, o)
+	}
+	return applyOps(o2)
 }
 
 func applyOps(ops []crashOp) map[string]string {
@@ -252,6 +273,8 @@ func histOps(hist []string) []crashOp {
 			ops = append(ops, crashOp{Name: h, Writes: map[string]string{"k1": string(val("v"+tag+"-", 150)), "k3": "t" + tag}})
 		case "TD":
 			ops = append(ops, crashOp{Name: h, Writes: map[string]string{"k1": "", "k3": "d" + tag}})
+		case "TX": // k1 (inline) and k2 (value log) with a TTL, k3 without
+			ops = append(ops, crashOp{Name: h, Writes: map[string]string{"k1": "x" + tag, "k2": string(val("X"+tag+"-", 150)), "k3": "t" + tag}, TTL: map[string]bool{"k1": true, "k2": true}})
 		case "WB":
 			ops = append(ops, crashOp{Name: h, Writes: map[string]string{"k2": "b" + tag, "p1": "b" + tag, "p2": string(val("w"+tag+"-", 120))}})
 		case "DP":
@@ -268,7 +291,7 @@ func histOps(hist []string) []crashOp {
 func execHistOp(db **DB, opts Options, op crashOp) error {
 	d := *db
 	switch op.Name {
-	case "T2", "TV", "TD":
+	case "T2", "TV", "TD", "TX":
 		return d.Update(func(txn *Txn) error {
 			ks := make([]string, 0, len(op.Writes))
 			for k := range op.Writes {
@@ -279,6 +302,8 @@ func execHistOp(db **DB, opts Options, op crashOp) error {
 				var err error
 				if op.Writes[k] == "" {
 					err = txn.Delete([]byte(k))
+				} else if op.TTL[k] {
+					err = txn.SetEntry(NewEntry([]byte(k), []byte(op.Writes[k])).WithTTL(time.Hour).WithMeta(0x5a))
 				} else {
 					err = txn.Set([]byte(k), []byte(op.Writes[k]))
 				}
@@ -639,6 +664,47 @@ func recoverImage(t *testing.T, j *vlib.Job, cr *crashRun, img crashImage, ops [
 			}
 		}
 	post:
+		if oracle == "c33" {
+			// C33 on recovered images: entries written with a TTL must still carry it (and their user
+			// meta) after WAL / value-log replay: two virtual hours later they are gone, on every image
+			um := map[string]byte{}
+			_ = db.View(func(txn *Txn) error {
+				for k := range got {
+					if it, err := txn.Get([]byte(k)); err == nil {
+						um[k] = it.UserMeta()
+					}
+				}
+				return nil
+			})
+			for n := s.Acked; n <= s.Issued && n <= len(ops); n++ {
+				if mapString(applyOps(ops[:n])) != mapString(got) {
+					continue
+				}
+				last := map[string]crashOp{}
+				for _, o := range ops[:n] {
+					for k := range o.Writes {
+						last[k] = o
+					}
+				}
+				for k := range got {
+					if want := last[k].TTL[k]; want != (um[k] == 0x5a) {
+						class, desc = "expiry-meta-lost", fmt.Sprintf("image %s of history %v: key %s recovered with user meta %#x, written with TTL+meta=%v", img.Name, cr.hist, k, um[k], want)
+						return
+					}
+				}
+				time.Sleep(2 * time.Hour)
+				later, _, err := visibleState(db)
+				if err != nil {
+					class, desc = "read-failed", fmt.Sprintf("image %s of history %v: %v", img.Name, cr.hist, err)
+					return
+				}
+				if want := applyOpsExpired(ops[:n]); mapString(later) != mapString(want) {
+					class, desc = "expiry-lost-in-recovery", fmt.Sprintf("image %s of history %v: two hours after recovery the database shows {%s}, with every TTL passed it must show {%s}", img.Name, cr.hist, mapString(later), mapString(want))
+				}
+				return
+			}
+			return
+		}
 		if oracle == "c14" || oracle == "all" {
 			synctest.Wait() // recovery flushes the replayed memtables in the background: let it finish
 			if c, d := lsmCheckStructure(&seqExec{db: db}); c != "" {
